@@ -11,7 +11,9 @@ pub extern crate grin_wallet_impls as impls;
 pub extern crate grin_wallet_libwallet as libwallet;
 
 pub mod mem;
+pub mod node;
 pub mod prng;
+pub mod scen;
 
 use std::io::Write;
 use std::panic::{catch_unwind, AssertUnwindSafe};
